@@ -9,15 +9,18 @@ Import ListNotations.
 Definition vlogi_crc (d : list byte) : N := crc32 d.
 Definition vlogz_crc (d : list byte) : N := 0%N.
 
-(* the run-time clean-up rule is the generated one *)
-Definition vlogi_step (cfg : vcfg) := vs_step vlogi_crc cfg VLOG_CLEANUP_CHECKS_READERS.
-Definition vlogz_step (cfg : vcfg) := vs_step vlogz_crc cfg VLOG_CLEANUP_CHECKS_READERS.
-Definition vlogi_resolve := vs_resolve vlogi_crc.
-Definition vlogz_resolve := vs_resolve vlogz_crc.
+(* the run-time clean-up rule and the block-cache rule of VLog::get are the generated ones *)
+Definition vlogi_step (cfg : vcfg) := vs_step vlogi_crc cfg VLOG_CLEANUP_CHECKS_READERS VLOG_CACHE_HIT_CHECKED.
+Definition vlogz_step (cfg : vcfg) := vs_step vlogz_crc cfg VLOG_CLEANUP_CHECKS_READERS VLOG_CACHE_HIT_CHECKED.
+Definition vlogi_resolve (cfg : vcfg) := vs_resolve vlogi_crc cfg VLOG_CACHE_HIT_CHECKED.
+Definition vlogz_resolve (cfg : vcfg) := vs_resolve vlogz_crc cfg VLOG_CACHE_HIT_CHECKED.
 Definition vlogi_append := vwriter_append vlogi_crc.
 Definition vlogi_read := vlog_read vlogi_crc.
 Definition vlogi_entry := ventry_bytes vlogi_crc.
 Definition vlogi_vs_append := vs_append vlogi_crc.
-Definition vlogi_vs_get := vs_get vlogi_crc.
-Definition vlogi_run (cfg : vcfg) := vs_run vlogi_crc cfg VLOG_CLEANUP_CHECKS_READERS.
-Definition vlogz_run (cfg : vcfg) := vs_run vlogz_crc cfg VLOG_CLEANUP_CHECKS_READERS.
+Definition vlogi_vs_get (cfg : vcfg) := vs_get vlogi_crc cfg VLOG_CACHE_HIT_CHECKED.
+(* VLog::get with an explicit rule: false = the code before the repair of F41 (regression runs of the driver) *)
+Definition vlogi_vs_get_rule (cfg : vcfg) (hck : bool) := vs_get vlogi_crc cfg hck.
+Definition vlogi_run (cfg : vcfg) := vs_run vlogi_crc cfg VLOG_CLEANUP_CHECKS_READERS VLOG_CACHE_HIT_CHECKED.
+Definition vlogz_run (cfg : vcfg) := vs_run vlogz_crc cfg VLOG_CLEANUP_CHECKS_READERS VLOG_CACHE_HIT_CHECKED.
+Definition vlogi_ds_step (cfg : vcfg) := ds_step vlogi_crc cfg VLOG_CLEANUP_CHECKS_READERS VLOG_CACHE_HIT_CHECKED.
